@@ -15,7 +15,9 @@ package main
 
 import (
 	"fmt"
+	"regexp"
 	"sort"
+	"strings"
 
 	"github.com/ccbrown/api-fu/graphql/schema"
 
@@ -80,7 +82,9 @@ func (g *gen) exclusiveArgTypes(add func(TypeDef)) {
 			if r.Chance(1, 6) {
 				feat = g.featSet()
 			}
-			add(TypeDef{Kind: "enum", Name: name, Desc: g.desc(), Feat: feat, Values: []EnumVal{{Name: "P_" + name, Desc: g.desc()}, {Name: "Q_" + name, Depr: g.depr()}}})
+			vs := []EnumVal{{Name: "P_" + name, Desc: g.desc()}, {Name: "Q_" + name, Depr: g.depr()}}
+			g.reservedEnumValue(vs)
+			add(TypeDef{Kind: "enum", Name: name, Desc: g.desc(), Feat: feat, Values: vs})
 		} else {
 			name = g.name("XIn", k)
 			if r.Chance(1, 5) {
@@ -398,4 +402,135 @@ func clonesUninspectedTypes() (copied bool) {
 		Directives: []*schema.Directive{{Definition: dd}}}}
 	cl := def.Clone()
 	return cl.Query.Directives[0].Definition.Arguments["a"].Type != schema.Type(only)
+}
+
+var legalNameRE = regexp.MustCompile(`^[_A-Za-z][_0-9A-Za-z]*$`)
+
+// legalName: the June-2018 rules schema.New enforces — a Name that does not start with "__"; an
+// enum value in addition is none of true / false / null (those may start with "__").
+func legalName(n string, enumValue bool) bool {
+	if !legalNameRE.MatchString(n) {
+		return false
+	}
+	if enumValue {
+		return n != "true" && n != "false" && n != "null"
+	}
+	return !strings.HasPrefix(n, "__")
+}
+
+// illegalNameUnseen reports whether the definition has an illegal name at a position schema.New
+// does not look at: inside a named type Inspect does not reach, or an argument of an unlisted
+// directive definition that is applied to nothing but elements Inspect does not look into. (The
+// generator does not produce such definitions: the name rules are about the registered schema.)
+func (d *SDef) illegalNameUnseen() bool {
+	insp := d.reach(false)
+	for _, t := range d.Types {
+		bad := !legalName(t.Name, false)
+		for _, f := range t.Fields {
+			bad = bad || !legalName(f.Name, false)
+			for _, a := range f.Args {
+				bad = bad || !legalName(a.Name, false)
+			}
+		}
+		for _, f := range t.Inputs {
+			bad = bad || !legalName(f.Name, false)
+		}
+		for _, v := range t.Values {
+			bad = bad || !legalName(v.Name, true)
+		}
+		if bad && !insp[t.Name] {
+			return true
+		}
+	}
+	seen := map[string]bool{}
+	for _, t := range d.Types {
+		if (t.Kind == "enum" || t.Kind == "scalar") && insp[t.Name] {
+			for _, ad := range t.Dirs {
+				seen[ad.Def] = true
+			}
+		}
+	}
+	for _, dd := range d.UDirs {
+		for _, a := range dd.Args {
+			if !legalName(a.Name, false) && !seen[dd.Name] {
+				return true
+			}
+		}
+	}
+	return false
+}
+
+// hasIllegalName: some name of the definition breaks the rules (anywhere).
+func (d *SDef) hasIllegalName() bool {
+	for _, t := range d.Types {
+		if !legalName(t.Name, false) {
+			return true
+		}
+		for _, f := range t.Fields {
+			if !legalName(f.Name, false) {
+				return true
+			}
+			for _, a := range f.Args {
+				if !legalName(a.Name, false) {
+					return true
+				}
+			}
+		}
+		for _, f := range t.Inputs {
+			if !legalName(f.Name, false) {
+				return true
+			}
+		}
+		for _, v := range t.Values {
+			if !legalName(v.Name, true) {
+				return true
+			}
+		}
+	}
+	for _, dd := range append(append([]DirDef{}, d.Dirs...), d.UDirs...) {
+		for _, a := range dd.Args {
+			if !legalName(a.Name, false) {
+				return true
+			}
+		}
+	}
+	for _, dd := range d.Dirs {
+		if !legalName(dd.Name, false) {
+			return true
+		}
+	}
+	return false
+}
+
+// fewerSelfReferences: a directive applied to an enum / scalar type whose definition has an argument
+// type that leads back to that type makes schema.New refuse the whole definition ("directive is
+// self-referencing"); three in four of those applications are taken out again so that the refusal
+// stays a small share of the generated definitions.
+func (g *gen) fewerSelfReferences() {
+	d := g.d
+	for i := range d.Types {
+		t := &d.Types[i]
+		if t.Kind != "enum" && t.Kind != "scalar" {
+			continue
+		}
+		var kept []AppliedDir
+		for _, ad := range t.Dirs {
+			dd := d.dirByName(ad.Def)
+			self := false
+			if dd != nil {
+				var starts []string
+				for _, a := range dd.Args {
+					starts = append(starts, a.Type.N)
+				}
+				self = d.reachFrom(false, false, starts)[t.Name]
+			}
+			if self && g.r.Chance(3, 4) {
+				continue
+			}
+			kept = append(kept, ad)
+		}
+		if len(kept) != len(t.Dirs) {
+			t.Dirs = kept
+		}
+	}
 }
